@@ -1,6 +1,10 @@
 import PyamgV.Driver.Util
 import PyamgV.Driver.C05
+import PyamgV.Driver.C16
 import PyamgV.Proofs.ExtC05ZCheck
+import PyamgV.Proofs.ExtC05ZBlkCheck
+import PyamgV.Proofs.ExtC05ZYCheck
+import PyamgV.Driver.ExtE36
 
 /-! Driver ops of extension E47 (property C05, definiteness clause and block-smoother certificates).
 
@@ -10,6 +14,11 @@ Jacobi through the certificate of `2 D − ω A` --, Galerkin coarse matrices, i
 hierarchy, its components, and -- cross-check of `flag_denseM_spd_checked` -- the same exact positive-definiteness
 certificate applied to the model matrices `denseM` of the V- and the W-cycle.
 Reply: `spd parts pdV pdW` (`pdV`/`pdW`: `true`/`false`/`-` when `denseM` fails), or `unmodelled`.
+`ext_c05z_spd c …`: Gaussian-rational data; reply `- - hpdV hpdW`, the exact Hermitian-positive-definite certificate `isHPD`
+of C16 (proved sound) on the executed complex model matrices.
+
+`ext_c05z_spdy r <pre> <post> <levels as for ext_c05y_cyc>`: hierarchies of the extended model whose smoothers all belong to the
+first model; reply `check spd parts pdV pdW` for the projected hierarchy / `denseMY`, or `nobase` / `unmodelled`.
 
 `ext_c05z_blk r <bs> <n ap aj ax>`: the proved Boolean `C05ZB.blkSmCheck` (`A.toBsr bs`, `blockDinv` succeed,
 `Dinv_i B_ii = I`, symmetric inverse blocks) and its components. -/
@@ -30,8 +39,42 @@ def runSpd (pre post : String) (rest : List String) : String :=
       | none => "-"
     s!"{PyamgV.C05Z.c05SpdCheck posR id ac ls} {showParts (PyamgV.C05Z.c05SpdParts posR id ac ls)} {pdOf .V} {pdOf .W}"
 
+/-- complex data: the exact Hermitian-positive-definite certificate `isHPD` (soundness `C16X.isHPD_sound_crat`,
+`C05Z.hpd_certificate_complex`) on the executed complex model matrices -/
+def runHpdC (pre post : String) (rest : List String) : String :=
+  let pre := PyamgV.Drv.C05.parseCfgs pre
+  let post := PyamgV.Drv.C05.parseCfgs post
+  match PyamgV.Drv.C05.parseLevels parseCRats pre post 0 rest with
+  | none => "unmodelled"
+  | some (ls, ac) =>
+    let pdOf (c : Cyc) : String := match denseM (α := CRat) CRat.ofRat ac c ls with
+      | some M => toString (PyamgV.C16.isHPD CRat.conj PyamgV.Drv.C16.posC M M.size)
+      | none => "-"
+    s!"- - {pdOf .V} {pdOf .W}"
+
+/-- the extended cycle model (`ext_c05y_cyc` data) on hierarchies whose smoothers are all of the first model: `c05Check` and
+`c05SpdCheck` on the projection `toBaseH` (`flag_denseMY_spd_checked_rat`), the exact certificate `pdB` on `denseMY` as cross-check -/
+def runSpdY (pre post : String) (rest : List String) : String :=
+  let pre := PyamgV.Drv.C05.parseCfgs pre
+  let post := PyamgV.Drv.C05.parseCfgs post
+  match PyamgV.Drv.ExtE36.parseLevelsY parseRats pre post 0 rest with
+  | none => "unmodelled"
+  | some (ls, ac) =>
+    match toBaseH ls with
+    | none => "nobase"
+    | some ls' =>
+      let pdOf (c : Cyc) : String := match PyamgV.C05Y.denseMY (α := Rat) id id ac c ls with
+        | some M => toString (pdB posR M.size M)
+        | none => "-"
+      s!"{c05Check id pre post ac ls'} {c05SpdCheck posR id ac ls'} {showParts (c05SpdParts posR id ac ls')} {pdOf .V} {pdOf .W}"
+
 def handle : List String → Option String
+  | "ext_c05z_spdy" :: "r" :: pre :: post :: rest => some <| runSpdY pre post rest
   | "ext_c05z_spd" :: "r" :: pre :: post :: rest => some <| runSpd pre post rest
+  | "ext_c05z_spd" :: "c" :: pre :: post :: rest => some <| runHpdC pre post rest
+  | ["ext_c05z_blk", "r", bs, n, ap, aj, ax] =>
+    let A : Csr Rat := PyamgV.Drv.C05.mkCsr parseRats n ap aj ax
+    some <| s!"{PyamgV.C05ZB.blkSmCheck A (nat bs)} {showParts (PyamgV.C05ZB.blkSmParts A (nat bs))}"
   | _ => none
 
 end PyamgV.Drv.ExtE47
